@@ -303,6 +303,54 @@ func runC04(c *Ctx) {
 		}
 		tbl := c.caseTable(f, nil, func(p string) bool { return p == X+".Type" })
 		want := map[string]string{`"update"`: X + ".Delta.UpdateCommitment", `"deactivate"`: `""`}
+		if len(tbl) == 0 {
+			// table form: the operation type is looked up in a package-level map of functions; each entry is read in
+			// GetCommitment's frame (its parameters are the arguments of the one call of the looked-up function)
+			if dv := c.dispatch(f, func(p string) bool { return p == X+".Type" }); dv != nil && dv.table && dv.site != nil {
+				var keys []string
+				for k := range dv.arms {
+					keys = append(keys, k)
+				}
+				sort.Strings(keys)
+				c.Check("C04.T2", "GetCommitment:case-set", eqStrs(keys, []string{`"deactivate"`, `"recover"`, `"update"`}), f.Pos(), fmt.Sprintf("GetCommitment dispatches over %v (expected update, recover, deactivate; create and unknown types fall through to an error)", keys))
+				for _, k := range keys {
+					a := dv.arms[k]
+					var rets []string
+					if a.fn != nil && a.fn.Blocks != nil {
+						c.Analysed(a.fn)
+						genv := c.calleeEnv(&dv.site.Call, a.fn, nil)
+						if a.fn.Signature.Recv() != nil && len(dv.site.Call.Args) == len(a.fn.Params) {
+							// method expression: the first argument is the receiver
+							genv = Env{}
+							for i, p := range a.fn.Params {
+								genv[p] = c.Path(dv.site.Call.Args[i], nil)
+							}
+						}
+						for _, r := range successReturns(a.fn) {
+							rets = append(rets, c.Path(returnedValue(r, 0), genv))
+						}
+					}
+					switch k {
+					case `"recover"`:
+						ok := len(rets) == 1 && strings.HasSuffix(rets[0], ".ParseSignedDataForRecover($0,"+X+".SignedData)#0.RecoveryCommitment")
+						c.Check("C04.T2", "GetCommitment:recover", ok, f.Pos(), fmt.Sprintf("recover reports %v (expected RecoveryCommitment of ParseSignedDataForRecover(op.SignedData))", rets))
+					default:
+						ok := len(rets) == 1 && rets[0] == want[k]
+						c.Check("C04.T2", "GetCommitment:"+unquote(k), ok, f.Pos(), fmt.Sprintf("%s reports %v (expected %s)", k, rets, want[k]))
+					}
+				}
+				foundOnly, callReq := c.tableGuards(dv)
+				okRet := true
+				for _, r := range successReturns(f) {
+					e0, _ := r.Results[0].(*ssa.Extract)
+					if e0 == nil || e0.Tuple != ssa.Value(dv.site) || e0.Index != 0 {
+						okRet = false
+					}
+				}
+				c.Check("C04.T2", "GetCommitment:other-types-error", foundOnly && callReq && okRet, f.Pos(), "create and unknown types yield an error; what the table's function reports is handed back unchanged")
+				continue
+			}
+		}
 		var keys []string
 		for k := range tbl {
 			keys = append(keys, k)
